@@ -153,13 +153,46 @@ def specStream (fixed : Option Nat) (data : List UInt8) (sizes : List Nat) (fail
 termination_by (if fail.isSome then 1 else 0)
 decreasing_by simp_all
 
+/-- The harness' reader is described independently of the caller's buffer size: `chunks` = sizes of
+    the successive pieces it is willing to deliver (0 = it reports end-of-stream there; afterwards as
+    much as fits), `fail` = (byte offset, kind) = one read error when exactly that many bytes have
+    been delivered.  This converts the description into the per-call script (sizes, failing call
+    index) seen by the model's 32 KiB `read` loop. -/
+def scriptGo (fail : Option (Nat × Nat)) :
+    Nat → Nat → List Nat → Nat → Nat → Nat → List Nat → List Nat × Option (Nat × Nat)
+  | 0, _, _, _, _, _, acc => (acc.reverse, none)
+  | fuel + 1, remaining, chunks, rem, delivered, callNo, acc =>
+    let failHere := match fail with | some (f, _) => delivered == f | none => false
+    if failHere then (acc.reverse, fail.map fun fk => (callNo, fk.2))
+    else
+      let capF (n : Nat) : Nat :=
+        match fail with
+        | some (f, _) => if delivered < f then min n (f - delivered) else n
+        | none => n
+      match chunks with
+      | [] =>
+        let n := capF (min BUFFER_SIZE remaining)
+        if n = 0 then (acc.reverse, none)
+        else scriptGo fail fuel (remaining - n) [] 0 (delivered + n) (callNo + 1) (n :: acc)
+      | c :: cs =>
+        let r := if rem = 0 then c else rem
+        if r = 0 then ((0 :: acc).reverse, none)
+        else
+          let n := capF (min (min r BUFFER_SIZE) remaining)
+          if n = 0 then (acc.reverse, none)
+          else
+            let r' := r - n
+            scriptGo fail fuel (remaining - n) (if r' = 0 then cs else c :: cs) r' (delivered + n) (callNo + 1) (n :: acc)
+
+def scriptOf (n : Nat) (chunks : List Nat) (fail : Option (Nat × Nat)) : List Nat × Option (Nat × Nat) :=
+  scriptGo fail (n + chunks.length + 4) n chunks 0 0 0 []
+
 def runStream (args : List String) : String × String :=
   match args with
   | [d, sz, fl] =>
     match bytesOfHex d with
     | some data =>
-      let sizes := natsOf sz
-      let fail := failOf fl
+      let (sizes, fail) := scriptOf data.length (natsOf sz) (failOf fl)
       (streamStr (hashStream data sizes fail),
        if data.length ≤ specLimit then specStream none data sizes fail else "*")
     | none => ("bad-op", "-")
